@@ -142,6 +142,14 @@ def check(case):
         nt = True
     elif rel == "beyond-last":
         if ws:
+            # an explicit until-distance is the segment's end whatever `max_distance_feet` (the default for a missing one) says
+            V_, A_, D_ = pb.Velocity, pb.Angular, pb.Distance
+            for f_ in (0.3, 5.0):
+                sh4 = build.shot(dict(spec, winds=None))
+                sh4.winds = [pb.Wind(V_.FPS(w[0]), A_.Radian(w[1]), D_.Foot(w[2]), max_distance_feet=w[2] * f_) for w in ws]
+                other4, _ = _run(case, None, shot_obj=sh4)
+                _same(r, "C12:explicit-until-distance-changed-by-max_distance_feet", base, other4,
+                      f"winds {ws} vs the same built with max_distance_feet = {f_} x until-distance")
             last = max(w[2] for w in ws)
             if last < 1e7:
                 other, _ = _run(case, dict(spec, winds=ws + [[0.0, 0.3, 1e8]]))
